@@ -140,8 +140,8 @@ def build(tier, seed, exclude):
         pre.append("not (c0 != c1 and len(c0) == len(c1) and m0 == m1 and t0 == t1 and i0 == i1)")
     g.cond("h_sym_history", "c0: bytes, c1: bytes, m0: int, m1: int, t0: int, t1: int, i0: int, i1: int, fresh: bool", pre, """
         c0, c1 = T.real(c0), T.real(c1)
-        pattern = (m0 == m1, t0 == t1, i0 == i1, m0 < m1, m0 > t0, m1 > t1, m0 > t1,
-                   t0 // 1000000000 == t1 // 1000000000)      # fork on the relations first, then pick values
+        pattern = [bool(x) for x in (m0 == m1, t0 == t1, i0 == i1, m0 < m1, m0 > t0, m1 > t1, m0 > t1,
+                   t0 // 1000000000 == t1 // 1000000000)]     # fork on the relations first (bool() forces the branch), then pick values
         m0, m1, t0, t1, i0, i1 = T.real((m0, m1, t0, t1, i0, i1))
         err = _sym_history(c0, c1, (m0, t0, len(c0), i0), (m1, t1, len(c1), i1), fresh)
         return T.fail(err) if err else True
@@ -150,7 +150,7 @@ def build(tier, seed, exclude):
     g.cond("h_sym_mtime_restored", "c0: bytes, c1: bytes, m: int, t0: int, t1: int, i0: int, i1: int",
            ["1 <= len(c0) <= 2 and 1 <= len(c1) <= 2 and c0 != c1", "m >= 0 and t0 >= 0 and t1 > t0 and i0 > 0 and i1 > 0"], """
         c0, c1 = T.real(c0), T.real(c1)
-        pattern = (i0 == i1, len(c0) == len(c1))
+        pattern = [bool(x) for x in (i0 == i1, len(c0) == len(c1))]
         m, t0, t1, i0, i1 = T.real((m, t0, t1, i0, i1))
         err = _sym_history(c0, c1, (m, t0, len(c0), i0), (m, t1, len(c1), i1), True)
         return T.fail(err) if err else True
@@ -159,7 +159,7 @@ def build(tier, seed, exclude):
     g.cond("h_sym_mtime_preserved", "c0: bytes, c1: bytes, m: int, t0: int, t1: int, i: int, rel: int",
            ["len(c0) == len(c1) and 1 <= len(c0) <= 2 and c0 != c1", "m >= 0 and 0 <= t0 < t1 and i > 0 and 0 <= rel < 3"], """
         c0, c1 = T.real(c0), T.real(c1)
-        pattern = (m > t1, m > t0, t1 - t0 < 1000000000, t0 // 1000000000 == t1 // 1000000000)
+        pattern = [bool(x) for x in (m > t1, m > t0, t1 - t0 < 1000000000, t0 // 1000000000 == t1 // 1000000000)]
         m, t0, t1, i = T.real((m, t0, t1, i))
         err = _sym_history(c0, c1, (m, t0, len(c0), i), (m, t1, len(c1), i), True)
         return T.fail(err) if err else True
